@@ -21,6 +21,8 @@ TECHNIQUE = "static analysis of built MIR: guard dominance on returned waits, aw
 
 
 def run(facts, tr, rep):
+    _n_ops = check_no_panicking_time_arith(facts, tr, rep, "C15.NO-PANIC-ARITH", facts.crates[CRATE].bodies)
+    rep.note("panicking Instant/Duration operators examined in the crate: %d" % _n_ops)
     rl = RL(facts, tr, rep)
     if not rl.ok:
         rep.anchor_missing("rate limiter acquire / try-acquire functions")
